@@ -31,6 +31,8 @@ TEXT = {
             "virtual-time assumption: coordinator CPU steps are instantaneous relative to the 0.5 s poll"),
     'C16': ('exploration', '7 C16', "At the process-creation seam every worker of the fork/spawn backend must be requested from the fork/spawn context; context seen inside run() equals filter_context(lab.context); storage is byte-identical between runs differing only in context; plus a real-OS probe (pid, ppid, module global mutated by the parent) on the three real backends.",
             "the real-OS half has no schedule dependence and is a real-execution probe, declared as such"),
+    'C19': ('exploration', '7 C19', "Simulated fork and spawn backends; every node emits a drawn pattern of uniquely tokenised labtech.logger records, printed lines, stderr lines, partial writes and explicit flushes; a handler on the caller's logger must have received each required token exactly once before run_tasks returns; the scheduler decides which worker finishes in the last polling round.",
+            "exit-flush ordering of BaseProcess._bootstrap (and the second flush at interpreter finalisation of a spawned child) is modelled from the CPython 3.12 source and was compared with the real backends by hand"),
     'C17': ('exploration', '7 C17', "A pass-through spy around the real Serial/Fork/Spawn runners and the S1 runner checks with Runner.get_result (pure read) that results stay until the last direct dependent finished and are gone afterwards, and that nothing is held at return, over completion orders, failure patterns and all 16 hash-seed classes.",
             "weak-reference liveness only where result objects are local (S0/S1)"),
 }
